@@ -220,8 +220,9 @@ func socketPorts() map[string]string {
 	return out
 }
 
-// ownSocketsOnPorts lists the descriptors of this process that are sockets bound to one of the ports.
-func ownSocketsOnPorts(ports map[int]bool) []string {
+// ownSocketsOnPorts lists the descriptors of this process that are sockets bound to one of the ports
+// (keys "tcp:<port>" / "udp:<port>").
+func ownSocketsOnPorts(ports map[string]bool) []string {
 	sp := socketPorts()
 	var out []string
 	for fd, t := range fdSnapshot() {
@@ -234,8 +235,7 @@ func ownSocketsOnPorts(ports map[int]bool) []string {
 			continue
 		}
 		parts := strings.Split(d, ":")
-		p, _ := strconv.Atoi(parts[1])
-		if ports[p] {
+		if ports[parts[0]+":"+parts[1]] {
 			out = append(out, fmt.Sprintf("fd %d %s", fd, d))
 		}
 	}
@@ -243,7 +243,7 @@ func ownSocketsOnPorts(ports map[int]bool) []string {
 	return out
 }
 
-func waitNoSockets(ports map[int]bool, grace time.Duration) []string {
+func waitNoSockets(ports map[string]bool, grace time.Duration) []string {
 	deadline := time.Now().Add(grace)
 	for {
 		left := ownSocketsOnPorts(ports)
